@@ -107,7 +107,10 @@ class _P(object):
                 self.next()
                 a, b = self.next().split("/")
                 self.expect("{")
-                self.music((int(b), int(a)), out)
+                # LilyPond scales everything inside the block: a \\times block inside another one is scaled by both fractions
+                from fractions import Fraction as _Fr
+                f = _Fr(ratio[0] * int(b), ratio[1] * int(a))
+                self.music((f.numerator, f.denominator), out)
                 self.expect("}")
             elif t == "<":
                 self.next()
